@@ -124,6 +124,12 @@ pub struct Case {
     /// funding transaction is confirmed on the tracker's chain
     #[serde(default)]
     pub onchain: bool,
+    /// start-up allowlist scenario (wire): the signer's HandlerBuilder was given a start-up
+    /// allowlist with one address D ("only used if node is new"); (run-time edit: 0 none, 1 remove
+    /// [D], 2 remove [D, absent], 3 remove [absent, D]; restarts with the same start-up
+    /// configuration 0..2); then a mutual close paying the holder to D
+    #[serde(default)]
+    pub startup: Option<(u8, u8)>,
 }
 
 fn delta_strat() -> impl Strategy<Value = Delta> {
@@ -164,6 +170,97 @@ fn path_of(idx: u32) -> DerivationPath {
 }
 
 impl C07 {
+    /// Start-up allowlist scenario (see Case::startup).
+    fn run_startup(&self, case: &Case, edit: u8, restarts: u8, st: &mut CaseStats, ctx: &Ctx) -> Result<(), Violation> {
+        use crate::props::proto::{validate_msg, Negotiation, ProtoWorld, To};
+        use vls_protocol::model::PubKey;
+        use vls_protocol::msgs::{self, Message};
+        use vls_protocol::serde_bolt::{Array, ArrayBE, Octets};
+        let net = Network::Testnet;
+        let secp = bitcoin::secp256k1::Secp256k1::new();
+        let mk = |b: u8| Address::p2wpkh(&CompressedPublicKey(bitcoin::secp256k1::PublicKey::from_secret_key(&secp, &bitcoin::secp256k1::SecretKey::from_slice(&[b; 32]).unwrap())), net);
+        let (d, absent) = (mk(0x71), mk(0x72));
+        let (ed, eb) = (format!("address:{}", d), format!("address:{}", absent));
+        let mut pw = ProtoWorld::new_configured(WorldCfg::default_testnet(), 6, Negotiation::SignerCap, vec![ed.clone()], false);
+        if !pw.node().allowlist().map(|l| l.contains(&ed)).unwrap_or(false) {
+            return ctx.report(st, Violation::new("C07:wire:startup-allowlist:not-installed-on-new-node", "the start-up allowlist of a new node was not installed".to_string()));
+        }
+        let mut spec = ChanSpec::basic(1);
+        spec.anchors = case.anchors;
+        spec.outbound = true;
+        spec.value_sat = VALUE;
+        spec.push_msat = BASE_CP * 1000;
+        let ci = match pw.new_stub(&spec) {
+            Out::Ok(i) => i,
+            _ => return Ok(()),
+        };
+        if !pw.setup_chan(ci).is_ok() {
+            st.class("startup:setup-refused");
+            return Ok(());
+        }
+        let h0 = finish_content(case.anchors, VALUE, 1000, BASE_CP, vec![], vec![]);
+        let signed = pw.chans[ci].cp_sign_holder(&secp, 0, &h0, SigKind::Valid);
+        let vm = validate_msg(&pw.chans[ci], &secp, 0, &h0, &signed, false);
+        let r1 = pw.request(To::Chan(ci), vm);
+        let p0 = pw.chans[ci].cp.point(&secp, 0);
+        let r2 = pw.request(To::Chan(ci), Message::SignRemoteCommitmentTx2(msgs::SignRemoteCommitmentTx2 {
+            remote_per_commitment_point: PubKey(p0.serialize()),
+            commitment_number: 0,
+            feerate: h0.feerate,
+            to_local_value_sat: h0.to_holder,
+            to_remote_value_sat: h0.to_cp,
+            htlcs: Array(vec![]),
+        }));
+        if !r1.is_ok() || !r2.is_ok() {
+            st.class("startup:commitments-refused");
+            return Ok(());
+        }
+        let edit = edit % 4;
+        let node = pw.node().clone();
+        let r = match edit {
+            0 => Ok(()),
+            1 => node.remove_allowlist(&[ed.clone()]),
+            2 => node.remove_allowlist(&[ed.clone(), eb.clone()]),
+            _ => node.remove_allowlist(&[eb.clone(), ed.clone()]),
+        };
+        if r.is_err() {
+            st.class("startup:removal-refused");
+            return Ok(());
+        }
+        let restarts = restarts % 3;
+        for _ in 0..restarts {
+            if !pw.restart().is_ok() {
+                st.class("startup:restart-failed");
+                return Ok(());
+            }
+        }
+        let cp_script = mk(0x33).script_pubkey();
+        let dest = d.script_pubkey();
+        let weight = ClosingTransaction::new(1_000_000, 1_000_000, dest.clone(), cp_script.clone(), pw.chans[ci].setup.funding_outpoint).trust().built_transaction().weight().to_wu() + 222;
+        let fee = 2000 * weight / 1000;
+        let rep = pw.request(To::Chan(ci), Message::SignMutualCloseTx2(msgs::SignMutualCloseTx2 {
+            to_local_value_sat: VALUE - BASE_CP - fee,
+            to_remote_value_sat: BASE_CP,
+            local_script: Octets(dest.as_bytes().to_vec()),
+            remote_script: Octets(cp_script.as_bytes().to_vec()),
+            local_wallet_path_hint: ArrayBE(vec![]),
+        }));
+        st.class(format!("startup:edit{}:restarts{}:{}", edit, restarts, rep.tag()));
+        st.sample = Some(json!({"startup": [edit, restarts], "result": rep.tag(), "err": rep.err_msg()}));
+        if edit != 0 {
+            st.nontrivial_shape(("startup", edit, restarts, case.anchors));
+            if rep.is_ok() {
+                return ctx.report(st, Violation::new(
+                    format!("C07:wire:startup-allowlist:removed-destination-paid{}", if restarts > 0 { "-after-restart" } else { "" }),
+                    format!("a destination removed from the allowlist at run time (edit {}) received the holder's {} sat in a signed mutual close after {} restart(s) with the same start-up configuration (allowlist now {:?})", edit, VALUE - BASE_CP - fee, restarts, pw.node().allowlist().unwrap_or_default()),
+                ));
+            }
+        } else if rep.is_ok() {
+            st.nontrivial_shape(("startup-control", restarts, case.anchors));
+        }
+        Ok(())
+    }
+
     /// Wire group: upfront shutdown script conveyed by SetupChannel, close through SignMutualCloseTx2.
     fn run_wire(&self, case: &Case, idx_sel: u8, dest_sel: u8, st: &mut CaseStats, ctx: &Ctx) -> Result<(), Violation> {
         use crate::props::proto::{validate_msg, Negotiation, ProtoWorld, To};
@@ -278,9 +375,10 @@ impl Prop for C07 {
             (any::<bool>(), any::<bool>(), prop_oneof![3 => Just(Upfront::None), 1 => Just(Upfront::Wallet), 1 => Just(Upfront::Allowlisted)], delta_strat(), any::<bool>()),
             (prop::bool::weighted(0.12), prop::bool::weighted(0.12), prop::bool::weighted(0.04), prop::bool::weighted(0.04), prop::bool::weighted(0.2)),
             (any::<bool>(), kind_strat(), prop::bool::weighted(0.8), delta_strat(), any::<bool>()),
-            (prop_oneof![1 => Just(RateSel::MinMinus3), 2 => Just(RateSel::Min), 5 => Just(RateSel::Mid), 2 => Just(RateSel::Max), 1 => Just(RateSel::MaxPlus3), 1 => Just(RateSel::Zero)], any::<bool>(), prop::bool::weighted(0.08), prop::bool::weighted(0.1), prop::bool::weighted(0.12), prop::bool::weighted(0.4), prop_oneof![12 => Just(None), 1 => (0u8..2, 0u8..3).prop_map(Some)], 1u8..7, prop::bool::weighted(0.35)),
+            (prop_oneof![1 => Just(RateSel::MinMinus3), 2 => Just(RateSel::Min), 5 => Just(RateSel::Mid), 2 => Just(RateSel::Max), 1 => Just(RateSel::MaxPlus3), 1 => Just(RateSel::Zero)], any::<bool>(), prop::bool::weighted(0.08), prop::bool::weighted(0.1), prop::bool::weighted(0.12), prop::bool::weighted(0.4), prop_oneof![12 => Just(None), 1 => (0u8..2, 0u8..3).prop_map(Some)], 1u8..7, prop::bool::weighted(0.35), prop_oneof![30 => Just(None), 1 => (0u8..4, 0u8..3).prop_map(Some)]),
         )
-            .prop_map(|((anchors, outbound, upfront, view_delta, view_delta_neg), (htlc_in_holder, htlc_in_cp, mh, mc, remove_allowlisted), (phase1, holder_script, hseu, prop_delta, prop_delta_neg), (rate, holder_first, extra_output, cp_zero, cp_takes_holder_share, holder_replaced, wire, allow_edit, onchain))| Case {
+            .prop_map(|((anchors, outbound, upfront, view_delta, view_delta_neg), (htlc_in_holder, htlc_in_cp, mh, mc, remove_allowlisted), (phase1, holder_script, hseu, prop_delta, prop_delta_neg), (rate, holder_first, extra_output, cp_zero, cp_takes_holder_share, holder_replaced, wire, allow_edit, onchain, startup))| Case {
+                startup,
                 onchain: onchain && wire.is_none(),
                 anchors, outbound, upfront, view_delta, view_delta_neg, htlc_in_holder, htlc_in_cp, missing_holder_commitment: mh, missing_cp_commitment: mc, remove_allowlisted,
                 phase1, holder_script, holder_script_equals_upfront: hseu, prop_delta, prop_delta_neg, rate, holder_first, extra_output, cp_zero, cp_takes_holder_share, holder_replaced, wire, allow_edit,
@@ -289,6 +387,9 @@ impl Prop for C07 {
     }
 
     fn run(&self, case: &Case, st: &mut CaseStats, ctx: &Ctx) -> Result<(), Violation> {
+        if let Some((edit, restarts)) = case.startup {
+            return self.run_startup(case, edit, restarts, st, ctx);
+        }
         if let Some((idx_sel, dest_sel)) = case.wire {
             return self.run_wire(case, idx_sel, dest_sel, st, ctx);
         }
